@@ -19,6 +19,7 @@ from sklearn.dummy import DummyRegressor
 from sklearn.linear_model import LinearRegression, LogisticRegression, Ridge
 from sklearn.naive_bayes import GaussianNB
 from sklearn.svm import LinearSVC
+from sklearn.neighbors import KNeighborsClassifier, KNeighborsRegressor
 from sklearn.pipeline import Pipeline
 from sklearn.preprocessing import KBinsDiscretizer, MinMaxScaler, StandardScaler
 from sklearn.tree import DecisionTreeClassifier, DecisionTreeRegressor
@@ -47,7 +48,7 @@ def tok_any(doc):
 FUNCTIONS = {"col_sum": col_sum, "col_first_two": col_first_two, "np.log1p": np.log1p, "np.expm1": np.expm1, "tok_any": tok_any}
 
 SKLEARN = {c.__name__: c for c in [KMeans, PCA, DummyRegressor, LinearRegression, LogisticRegression, Ridge, GaussianNB,
-                                   KBinsDiscretizer, MinMaxScaler, StandardScaler, DecisionTreeClassifier, DecisionTreeRegressor, Pipeline, LinearSVC]}
+                                   KBinsDiscretizer, MinMaxScaler, StandardScaler, DecisionTreeClassifier, DecisionTreeRegressor, Pipeline, LinearSVC, KNeighborsClassifier, KNeighborsRegressor]}
 HARNESS = {c.__name__: c for c in [H.RecordingRegressor, H.RecordingClassifier, H.CentroidClassifier, H.FailingRegressor,
                                    H.FailingClassifier, H.FailingTransformer, H.FakeTSNE, H.KwargsRegressor, H.KwargsClassifier, H.SkewedClassifier, H.DomainClassifier]}
 
